@@ -139,7 +139,10 @@ impl EventGen for Container {
             }
             // A graphics element with no content at all (`<rect ...></rect>`) is the
             // same as the empty-element form, and must be laid out like one.
-            if self.0.is_graphics_element()
+            // (svgdx's own `box` and `point` are laid out - and left out - like shapes)
+            let is_shape =
+                self.0.is_graphics_element() || matches!(self.0.name.as_str(), "box" | "point");
+            if is_shape
                 && !self.0.is_verbatim_text()
                 && (inner_text.is_some() || inner_events.is_empty())
             {
@@ -161,7 +164,7 @@ impl EventGen for Container {
                 let res = el.generate_events(context);
                 context.inc_depth()?;
                 res
-            } else if self.0.is_graphics_element()
+            } else if is_shape
                 && !matches!(self.0.name.as_str(), "text" | "reuse")
                 && inner_text.is_none()
             {
